@@ -292,12 +292,13 @@ def resolve_invoke(routine, inv):
             put(0, fld(args[1]), args[1])
             put(1, fld(args[2]), args[2])
             for sten in (args[3], args[4]):
+                # PSyclone shares one stencil map between all fields of one
+                # function space, stencil type and extent (e.g. the map looked
+                # up through f4 also serves f3): the field the map is taken from
+                # must be a dummy (checked in stencil_item) but need not be this
+                # position's field; only the extent belongs to the position.
                 got = routine.stencil_item(sten)
-                if got is None:
-                    put(2, None, sten)
-                    continue
-                put(1, ("dummy", got[0]), sten)
-                put(2, got[1], sten)
+                put(2, None if got is None else got[1], sten)
             put(3, fld(args[5]), args[5])
             put(4, fld(args[6]), args[6])
     return items, problems
